@@ -473,11 +473,19 @@ func runUnit(prop *Prop, u *Unit, id, tier string, seed int64, replay, work stri
 			}
 			c.Env = env
 			o, err := c.CombinedOutput()
+			if u.Race && strings.Contains(string(o), "fatal error: concurrent map") && !strings.Contains(string(o), "WARNING: DATA RACE") {
+				o = append([]byte("WARNING: DATA RACE\nWrite at 0x0 by goroutine 0:\n  runtime.fatal: concurrent map access()\n"+tail(string(o), 30)+"\n==================\n"), o...)
+			}
 			if u.Race && strings.Contains(string(o), "WARNING: DATA RACE") {
 				raceOut[s] = string(o)
 				err = nil
 			}
 			b, rerr := os.ReadFile(out)
+			if rerr != nil && raceOut[s] != "" {
+				// the process died (e.g. fatal concurrent map access) before writing its report
+				reports[s] = shardReport{Unit: u.Name, Evaluations: 1, Exhaustive: false, Counters: map[string]int64{}}
+				return
+			}
 			if rerr != nil {
 				errs[s] = fmt.Errorf("shard %d wrote no report (exit: %v)\n%s", s, err, tail(string(o), 40))
 				return
